@@ -104,6 +104,74 @@ def run(ck, facts, tier):
         else:
             ck.violation(R, "reached_fixed_point:eq||is_ambig", b.where(), "fixed point test must be `old == new || new.is_ambig()`")
 
+    R = "C09.FULFILL-PROGRESS"
+    ck.rule(R, "K3/K1: the obligation loop of Fulfill::fulfill (`while progress`) re-runs only when a round changed something: every "
+               "`progress = true` is control-dependent on `!is_trivial_canonical_subst(definite subst)` (or non-empty constraints), and "
+               "is_trivial_canonical_subst recognises the identity substitution for *all three* kinds of generic argument (an arm that answers "
+               "a constant lets an ambiguous obligation with identity guidance report progress forever)")
+    fb = need_body(ck, facts, R, "chalk_recursive::fulfill::Fulfill::fulfill")
+    if fb:
+        th = facts.thir("chalk_recursive::fulfill::Fulfill::fulfill")
+        lets = {}
+        for st in walk(th):
+            if st.get("k") == "let" and st.get("init") is not None and st["pat"].get("k") == "bind":
+                lets[st["pat"].get("n")] = st["init"]
+
+        def resolved_has(cond, fn, depth=3):
+            if has_call(cond, fn):
+                return True
+            if depth == 0:
+                return False
+            return any(v in lets and resolved_has(lets[v], fn, depth - 1) for v in expr_vars(cond))
+
+        sites = []
+
+        def visit(n, conds):
+            if isinstance(n, list):
+                for x in n:
+                    visit(x, conds)
+                return
+            if not isinstance(n, dict):
+                return
+            if n.get("k") == "assign" and var_name(peel(n["l"])) == "progress" and "true" in str(peel(n["r"]).get("v")):
+                sites.append(conds)
+            if n.get("k") == "if":
+                visit(n["cond"], conds)
+                visit(n["then"], conds + [n["cond"]])
+                visit(n.get("else"), conds)
+                return
+            for key, v in n.items():
+                if isinstance(v, (dict, list)) and key != "pat":
+                    visit(v, conds)
+        visit(th, [])
+        ck.floor(R, "fulfill.progress=true", len(sites), 1)
+        for i, conds in enumerate(sites):
+            if any(resolved_has(c, "is_trivial_canonical_subst") for c in conds):
+                ck.ok(R, "fulfill:progress=true#%d" % i, "guarded by the non-trivial-substitution test")
+            else:
+                ck.violation(R, "fulfill:progress=true#%d" % i, fb.where(), "`progress = true` is not guarded by the trivial-substitution test: "
+                             "applying guidance that changes nothing would re-run the loop forever")
+    tb = need_body(ck, facts, R, "chalk_recursive::fulfill::is_trivial_canonical_subst")
+    if tb:
+        th = facts.thir("chalk_recursive::fulfill::is_trivial_canonical_subst")
+        ms = enum_matches(th, "chalk_ir::GenericArgData")
+        if len(ms) != 1:
+            ck.violation(R, "is_trivial_canonical_subst:match", tb.where(), "expected one match on GenericArgData, found %d" % len(ms))
+        else:
+            for v in facts.variants("chalk_ir::GenericArgData"):
+                arms = select_arms(ms[0], V(v))
+                arm = ms[0]["arms"][arms[0][0]]
+                if has_call(arm["body"], "bound_var"):
+                    ck.ok(R, "is_trivial_canonical_subst:%s" % v, "is_trivial(x.bound_var())")
+                else:
+                    ck.violation(R, "is_trivial_canonical_subst:%s" % v, tb.where(arm["ln"]),
+                                 "the %s arm does not look at the argument's bound variable: an identity substitution of this kind is never "
+                                 "recognised as trivial (or always is), which breaks the progress test of Fulfill::fulfill" % v)
+        if has_call(th, "Iterator::all") or has_call(th, "all"):
+            ck.ok(R, "is_trivial_canonical_subst:all-parameters")
+        else:
+            ck.violation(R, "is_trivial_canonical_subst:all-parameters", tb.where(), "must hold for all parameters")
+
     R = "C09.LOOP-EXIT"
     ck.rule(R, "K1: in SLGSolver::solve_multiple every arm for an *absorbing* AnswerResult (one that, once returned by the stream, is "
                "returned by every later call: NoMoreSolutions, Floundered - tables never un-flounder) must return from the function "
